@@ -225,14 +225,14 @@ Proof.
   { rewrite Hnes. exact Hcap. }
   { rewrite Hser. unfold eof1. clear - Hm. lia. }
   cbv zeta in Hw, Hr.
-  eexists _, _, eof1. split.
+  exists (write_at f1 eof1 (serialize_leaf (length cdims) (sort_entries es))),
+         (eof1 + blen (serialize_leaf (length cdims) es)), eof1. split.
   - unfold write_chunked_file, write_chunked_file_st.
     replace (lenN data =? vol dims esz) with true by (symmetry; apply N.eqb_eq; exact Hd). cbn [negb].
     fold n. replace (MAX_ENTRIES <? n) with false by (symmetry; apply N.ltb_ge; exact Hcap). cbn [andb].
-    fold cks. rewrite E.
-    unfold write_index in Hw. rewrite Hc in Hw.
-    destruct (write_index_st true (length dims) es f1 eof1) as [[g e'] [r| |]]; cbn [st_result] in Hw |- *;
-      try discriminate. inversion Hw; subst. reflexivity.
+    fold cks. rewrite E. cbv beta iota.
+    change (st_result (write_index_st true (length dims) es f1 eof1)) with (write_index true (length dims) es f1 eof1).
+    rewrite <- Hc. exact Hw.
   - apply (read_chunked_file_correct dims cdims esz data Hs Hd true _ eof1 es Hvol).
     + unfold MAX_CHUNK in HB. unfold B in HB, HB0. rewrite vol_prod in HB, HB0.
       pose proof (prodN_pos cdims Hpc) as Hpp. clear - HB Hpp. nia.
@@ -243,5 +243,5 @@ Proof.
       assert (Hsc : sc_of cdims e = c) by (unfold sc_of; rewrite R1; apply scaled_key_id; auto).
       unfold entry_stored. rewrite Hsc, R2. split.
       * unfold validate_size. apply andb_true_iff. split; [apply negb_true_iff, N.eqb_neq; lia|apply N.leb_le; exact HB].
-      * apply read_bytes_at_write_at_before; auto; try lia. unfold MAX_CHUNK in HB. lia.
+      * apply read_bytes_at_write_at_before; auto; try lia; unfold MAX_CHUNK in HB; lia.
 Qed.
